@@ -155,23 +155,69 @@ theorem any_name_iff (ps : List Param) (n : String) :
     ps.any (fun q => q.name = n) = true ↔ n ∈ ps.map (·.name) := by
   simp only [List.any_eq_true, decide_eq_true_eq, List.mem_map]
 
+theorem names_replaceP (ps : List Param) (p : Param) (n : String) (hp : p.name ∈ ps.map (·.name)) :
+    n ∈ (replaceP ps p).map (·.name) ↔ n ∈ ps.map (·.name) := by
+  unfold replaceP
+  simp only [List.map_map, List.mem_map, Function.comp]
+  constructor
+  · rintro ⟨q, hq, rfl⟩
+    by_cases h : q.name = p.name
+    · simp only [h, if_true]
+      obtain ⟨r, hr, hrn⟩ := List.mem_map.mp hp
+      exact ⟨r, hr, hrn⟩
+    · simp only [h, if_false]
+      exact ⟨q, hq, rfl⟩
+  · rintro ⟨q, hq, rfl⟩
+    refine ⟨q, hq, ?_⟩
+    by_cases h : q.name = p.name
+    · simp [h]
+    · simp [h]
+
 theorem names_bpStep (acc : List Param × List String) (p : Param) (n : String) :
     n ∈ (bpStep acc p).1.map (·.name) ↔ n ∈ acc.1.map (·.name) ∨ n = p.name := by
   unfold bpStep
   by_cases h : acc.1.any (fun q => q.name = p.name) = true
-  · simp only [h, if_true]
-    constructor
-    · exact Or.inl
-    · rintro (h' | rfl)
-      · exact h'
-      · exact (any_name_iff _ _).mp h
+  · have hp : p.name ∈ acc.1.map (·.name) := (any_name_iff _ _).mp h
+    simp only [h, if_true]
+    have hor : (n ∈ acc.1.map (·.name) ∨ n = p.name) ↔ n ∈ acc.1.map (·.name) := by
+      constructor
+      · rintro (h' | rfl)
+        · exact h'
+        · exact hp
+      · exact Or.inl
+    rw [hor]
+    split
+    · exact names_replaceP acc.1 p n hp
+    · exact Iff.rfl
   · simp only [h]
     simp [List.mem_append]
 
 theorem baseInv_bpStep {acc : List Param × List String} (h : BaseInv acc) (p : Param) : BaseInv (bpStep acc p) := by
   unfold bpStep
   by_cases hc : acc.1.any (fun q => q.name = p.name) = true
-  · rw [if_pos hc]; exact h
+  · rw [if_pos hc]
+    have hp : p.name ∈ acc.1.map (·.name) := (any_name_iff _ _).mp hc
+    split
+    · rename_i hcond
+      simp only [Bool.and_eq_true, Bool.not_eq_true', List.contains_eq_mem, decide_eq_false_iff_not] at hcond
+      refine ⟨?_, ?_⟩
+      · intro q hq
+        dsimp only at hq ⊢
+        unfold replaceP at hq
+        obtain ⟨r, hr, rfl⟩ := List.mem_map.mp hq
+        by_cases hrn : r.name = p.name
+        · simp only [hrn, if_true, List.mem_append, List.mem_singleton, or_true, true_iff]
+          exact hcond.2
+        · simp only [hrn, if_false, List.mem_append, List.mem_singleton, or_false]
+          exact h.1 r hr
+      · intro n hn
+        dsimp only at hn ⊢
+        rw [names_replaceP acc.1 p n hp]
+        simp only [List.mem_append, List.mem_singleton] at hn
+        rcases hn with hn | rfl
+        · exact h.2 n hn
+        · exact hp
+    · exact h
   · have hnot : ¬ p.name ∈ acc.1.map (·.name) := fun e => hc ((any_name_iff _ _).mpr e)
     have hnot2 : ¬ p.name ∈ acc.2 := fun e => hnot (h.2 _ e)
     rw [if_neg hc]
@@ -585,13 +631,15 @@ theorem runtimeRequired_iff (dflt : Bool) (c : ClassInfo) (n : String) :
       baseInfoOf_inv _
     simp only [runtimeSig, sigOf, clsRequired]
     rw [mem_makeSignature _ _ _ _ _ _ hinv, names_makeSignature _ _ _ _ _ _ hinv]
-    simp only [List.mem_append]
+    simp only [List.mem_append, List.mem_filter]
     constructor
     · rintro (⟨_, h1, h2, h3⟩ | ⟨h, _⟩)
-      · exact ⟨⟨h1, h2⟩, h3.symm⟩
+      · exact ⟨⟨h1, h2⟩, Or.inl h3.symm⟩
       · cases h
     · rintro ⟨⟨h1, h2⟩, h3⟩
-      exact Or.inl ⟨trivial, h1, h2, h3.symm⟩
+      rcases h3 with h3 | ⟨hc, _⟩
+      · exact Or.inl ⟨trivial, h1, h2, h3.symm⟩
+      · exact absurd hc h2
 
 
 end Typedpy.Stub
